@@ -514,6 +514,11 @@ func (fr *Framer) ReadFrame() (Frame, error) {
 		if ce, ok := err.(connError); ok {
 			return nil, fr.connError(ce.Code, ce.Reason)
 		}
+		if err == io.ErrUnexpectedEOF {
+			// The payload was read in full, so this is not the peer going away:
+			// the frame is too short for its mandatory fields (RFC 7540, Section 4.2).
+			return nil, fr.connError(ErrCodeFrameSize, "frame too short for its mandatory fields")
+		}
 		return nil, err
 	}
 	if err := fr.checkFrameOrder(f); err != nil {
